@@ -27,13 +27,14 @@ fails; nothing is ever skipped):
     only pure functions) and the full expression contains no ++/--;
   * `p++` / `++p` / `p--` / `--p` on a pointer variable inside a full expression, under the rule of FnP for
     integers (the variable occurs exactly once in the full expression, not under && || ?:);
-  * `while (c)` whose condition contains hoistable ++/--:  loop { pre; t = c; post; if (!t) break; body }.
+  * `while (c)` whose condition contains hoistable ++/--:  int t; loop { pre; t = c; post; if (!t) break; body }.
 
 mzd_row_add_offset has an `#if __M4RI_HAVE_SSE2` branch (SIMD intrinsics, a pointer-to-integer cast): it is
 translated from a translation unit whose m4ri_config.h says __M4RI_HAVE_SSE2 0, i.e. the SCALAR branch; the
 SSE2 branch of that one function stays outside the translation (it is covered by the correspondence runs only).
 
 Usage:  translate_acc.py [--stdout] [--out FILE]      (exit status 1 if a required function was refused)
+        translate_acc.py --selftest                   (edits scratch copies of the repository; see selftest())
 The source is the working tree of vlib.REPO (environment VERIF_REPO), copied by vlib.copy_tree().
 """
 import json, os, re, subprocess, sys
@@ -414,9 +415,10 @@ class FnS(FnP):
                 return "(Sloop (Some %s)\n %s\n Sskip)" % (c, b)
             if self.u.ity(cond["type"]) != "tint" and (pre or post):
                 c = "(Ecmp Cne %s (Econst 0))" % c
+            # the value of the condition is kept in a variable declared in front of the loop
             t = self.new_var("__cond%d" % (len(self.order) + 1), ("int", "tint"))
-            head = pre + ["(Sdecl %d (Some %s))" % (t, c)] + post + ["(Sif (Evar %d) Sskip Sbreak)" % t]
-            return "(Sloop None\n %s\n Sskip)" % self.seq(head + [b])
+            head = pre + ["(Sassign (Lvar %d) %s)" % (t, c)] + post + ["(Sif (Evar %d) Sskip Sbreak)" % t]
+            return self.seq(["(Sdecl %d None)" % t, "(Sloop None\n %s\n Sskip)" % self.seq(head + [b])])
         if k == "ReturnStmt" and self.ret_is_ptr:
             if not n.get("inner"):
                 raise Refuse("return without a value in a function with a pointer result")
@@ -609,7 +611,111 @@ def regenerate_accessors(path=None):
     return vlib.write_if_changed(path or GEN_A, text), refused
 
 
+# ------------------------------------------------------------------------------------------------
+# Self-test: does the tie bite?  Each case edits a scratch copy of the repository, regenerates Gen_access.v
+# from it (a subprocess with VERIF_REPO pointing at the copy, exactly as a check run on a changed tree would)
+# and compiles the specification files against the result in a scratch Coq tree.
+# ------------------------------------------------------------------------------------------------
+SPEC_FILES = ["Leaf/AccessSpecs.v", "Leaf/AccessSpecs2.v", "Leaf/AccessSpecs3.v", "Leaf/AccessSpecs4.v",
+              "Leaf/AccessSpecs5.v", "Leaf/AccessSpecs6.v", "Properties/Properties_C13t.v"]
+
+SELFTEST_CASES = [
+    # (name, file, old text, new text, expectation: "proof" = a spec file no longer compiles, "refuse" = refusal)
+    ("unchanged", None, None, None, "ok"),
+    ("xor_bits: values >> space -> values >> spot", "mzd.h",
+     "if (n > space) { row[block + 1] ^= values >> space; }", "if (n > space) { row[block + 1] ^= values >> spot; }", "proof"),
+    ("read_bits: spill off by one", "mzd.h",
+     "int const spill  = spot + n - m4ri_radix;", "int const spill  = spot + n - m4ri_radix + 1;", "proof"),
+    ("clear_bits: second word not complemented", "mzd.h",
+     "if (n > space) { row[block + 1] &= ~(values >> space); }", "if (n > space) { row[block + 1] &= (values >> space); }", "proof"),
+    ("mzd_row: width instead of rowstride", "mzd.h",
+     "return M->data + M->rowstride * row;", "return M->data + M->width * row;", "proof"),
+    ("write_bit: also writes a member", "mzd.h",
+     "    word * truerow = mzd_row(M, row);", "    M->flags = 0; word * truerow = mzd_row(M, row);", "refuse"),
+    ("read_bit: harmless rewrite (same value)", "mzd.h",
+     "return __M4RI_GET_BIT(truerow[col / m4ri_radix], col % m4ri_radix);",
+     "rci_t const c = col; return __M4RI_GET_BIT(truerow[c / m4ri_radix], c % m4ri_radix);", "ok"),
+]
+
+
+def _vo_closure(files):
+    """the .vo files (relative to vlib.COQ) that compiling `files` needs, transitively, except the files themselves"""
+    import collections
+    seen, todo = set(), collections.deque(files)
+    own = set(files)
+    while todo:
+        f = todo.popleft()
+        p = vlib.run(["coqdep", "-Q", ".", "M4", f], cwd=vlib.COQ)
+        for tok in p.stdout.replace("\\\n", " ").split():
+            if tok.endswith(".vo") and not tok.startswith("/"):
+                v = tok[:-1]
+                if v not in seen and v not in own and os.path.exists(os.path.join(vlib.COQ, v)):
+                    seen.add(v)
+                    todo.append(v)
+    return sorted(seen)
+
+
+def selftest(cases=None, verbose=True):
+    """-> [(case name, expectation, outcome, detail)]; outcome in ok | refuse | proof | error"""
+    import shutil, tempfile
+    base = tempfile.mkdtemp(prefix="acc-selftest-", dir=os.environ.get("VERIF_SCRATCH_BASE", "/var/tmp"))
+    results = []
+    try:
+        specs = [f for f in SPEC_FILES if os.path.exists(os.path.join(vlib.COQ, f))]
+        deps = [d for d in _vo_closure(specs) if d != "Leaf/Gen_access.v"]
+        for idx, (name, fname, old, new, expect) in enumerate(cases or SELFTEST_CASES):
+            repo = os.path.join(base, "repo%d" % idx)
+            os.makedirs(os.path.join(repo, "m4ri"))
+            for f in os.listdir(os.path.join(vlib.REPO, "m4ri")):
+                if f.endswith((".c", ".h", ".in")):
+                    shutil.copy(os.path.join(vlib.REPO, "m4ri", f), os.path.join(repo, "m4ri", f))
+            if fname:
+                path = os.path.join(repo, "m4ri", fname)
+                text = open(path).read()
+                if text.count(old) != 1:
+                    results.append((name, expect, "error", "the text to edit occurs %d times" % text.count(old)))
+                    continue
+                open(path, "w").write(text.replace(old, new))
+            coq = os.path.join(base, "coq%d" % idx)
+            for d in deps + specs:
+                os.makedirs(os.path.join(coq, os.path.dirname(d)), exist_ok=True)
+            for d in deps:
+                shutil.copy(os.path.join(vlib.COQ, d + "o"), os.path.join(coq, d + "o"))
+            for f in specs:
+                shutil.copy(os.path.join(vlib.COQ, f), os.path.join(coq, f))
+            gen = os.path.join(coq, "Leaf", "Gen_access.v")
+            env = dict(os.environ, VERIF_REPO=repo)
+            p = vlib.run([sys.executable, os.path.abspath(__file__), "--out", gen], env=env)
+            refusals = [l for l in p.stderr.splitlines() if l.startswith("REFUSED")]
+            outcome, detail = "ok", ""
+            if refusals:
+                outcome, detail = "refuse", refusals[0][:200]
+            for f in ["Leaf/Gen_access.v"] + specs:
+                if outcome not in ("ok", "refuse"):
+                    break
+                q = vlib.run(["coqc", "-Q", ".", "M4", f], cwd=coq, timeout=900)
+                if q.returncode != 0:
+                    err = [l for l in q.stderr.splitlines() if l.startswith("File")]
+                    msg = "%s does not compile: %s" % (f, (err[0] if err else q.stderr[-200:]).replace(coq + "/", ""))
+                    if outcome == "refuse":
+                        detail += " | " + msg
+                    else:
+                        outcome, detail = "proof", msg
+                    break
+            results.append((name, expect, outcome, detail))
+            if verbose:
+                print("%-55s expected %-7s got %-7s %s" % (name, expect, outcome, detail), flush=True)
+    finally:
+        shutil.rmtree(base, ignore_errors=True)
+    return results
+
+
 if __name__ == "__main__":
+    if "--selftest" in sys.argv:
+        res = selftest()
+        bad = [r for r in res if r[1] != r[2]]
+        print("self-test: %d cases, %d unexpected" % (len(res), len(bad)))
+        sys.exit(1 if bad else 0)
     out = None
     if "--out" in sys.argv:
         out = sys.argv[sys.argv.index("--out") + 1]
